@@ -13,7 +13,7 @@ RULE = ("metamorphic on the real code, two builds of the same model matched by (
         "absolute inflows times k, contact rate / k for density dependence; compared with one_step and euler / rk4 / adaptive runs; distinct by "
         "program hash + variant, non-trivial when the model has >= 1 stratification or >= 3 flows")
 TRUSTED = []
-ASSUMPTIONS = ["the adaptive solver's absolute tolerance is not scale invariant: scaled trajectories are compared at the PRECISE tolerance to 1e-5 relative",
+ASSUMPTIONS = ["the adaptive solver's absolute tolerance is not scale invariant: scaled trajectories are compared at the PRECISE tolerance to 1e-4 relative",
                "'strain' (stratification name) and 'default' (strain label) are hard-coded at run time and are not renamed"]
 
 VARIANTS = ["perm", "rename", "order", "shift", "scale", "swap"]
@@ -66,7 +66,7 @@ def compare(out, payload, what, I0, I1, params0, params1, ops0, ops1, keymap=lam
                     x, y = d0[k], d1[k]
                     if not (np.all(np.isfinite(x)) and np.all(np.isfinite(y))): continue
                     Nd = max(1.0, float(np.abs(x).max()))
-                    told = 1e-9 * Nd if s != "odeint" else 1e-5 * Nd
+                    told = 1e-9 * Nd if s != "odeint" else 1e-4 * Nd
                     if x.shape != y.shape or np.abs(x - y).max() > told:
                         fail(out, f"{what}: derived output {k} differs ({s})", "c15", payload, worst=float(np.abs(x - y).max()) if x.shape == y.shape else None,
                              tol=told, program=ops0, variant_program=ops1, params=params0)
@@ -81,7 +81,7 @@ def compare(out, payload, what, I0, I1, params0, params1, ops0, ops1, keymap=lam
             bump(out, "negative_states_skipped"); continue
         b2 = b[:, perm]
         N = max(1.0, float(np.abs(a).max()) * abs(factor))
-        tol = 1e-9 * N if s != "odeint" else 1e-5 * N
+        tol = 1e-9 * N if s != "odeint" else 1e-4 * N      # adaptive runs (PRECISE tolerance): inputs with kinks (piecewise-linear rates) leave a global error of a few 1e-5 relative, differently for the two presentations
         if a.shape != b2.shape or np.abs(a * factor - b2).max() > tol:
             fail(out, f"{what}: outputs differ ({s})", "c15", payload, worst=float(np.abs(a * factor - b2).max()) if a.shape == b2.shape else None, tol=tol,
                  program=ops0, variant_program=ops1, params=params0)
